@@ -128,24 +128,6 @@ pub fn run(cx: &mut Ctx) {
 			(11, all(11)),
 		]),
 	));
-	if thorough {
-		fams.push((
-			"product-wide",
-			product(&[
-				(0, vec![0, 2]),
-				(1, vec![0, 1, 2, 4, 6, 7, 8, 9, 10, 11, 12]),
-				(2, vec![0, 1, 3]),
-				(3, vec![0, 1, 4, 5, 8]),
-				(4, vec![0, 1, 3, 4]),
-				(5, (0..27).collect()),
-				(6, vec![0, 2, 3, 5]),
-				(7, vec![0, 1, 2]),
-				(8, vec![0, 1, 4]),
-				(9, all(9)),
-				(10, all(10)),
-			]),
-		));
-	}
 	let mut seen: BTreeSet<Cfg> = BTreeSet::new();
 	let mut cfgs: Vec<Cfg> = Vec::new();
 	let mut fam_of: Vec<usize> = Vec::new();
@@ -164,37 +146,47 @@ pub fn run(cx: &mut Ctx) {
 
 	// ---- round trips ------------------------------------------------------------------------
 	let deadline = cx.deadline;
-	let res = par::map(&cfgs, cx.threads, |_, c| {
-		if Instant::now() >= deadline {
-			return None;
-		}
-		Some(roundtrip_one(c))
-	});
 	let mut built: Vec<(usize, Cfg)> = Vec::new();
-	for (i, r) in res.into_iter().enumerate() {
-		match r {
-			Ok(Some(o)) => {
-				cx.stats.merge(&o.stats);
-				for v in o.viols {
-					cx.push(i as u64, v);
-				}
-				if let Some(s) = o.ok {
-					cx.nontrivial(s.as_bytes());
-					if cx.samples.len() < 6 && (i % 97 == 0) {
-						cx.samples.push(json!({"family": "bolt11-roundtrip", "config": b11::cfg_desc(&cfgs[i]), "string": s}));
+	// batches keep the transient per-configuration results small (the thorough product has millions)
+	const BATCH: usize = 100_000;
+	let mut base = 0usize;
+	while base < cfgs.len() {
+		let end = (base + BATCH).min(cfgs.len());
+		let res = par::map(&cfgs[base..end], cx.threads, |_, c| {
+			if Instant::now() >= deadline {
+				return None;
+			}
+			Some(roundtrip_one(c))
+		});
+		for (k, r) in res.into_iter().enumerate() {
+			let i = base + k;
+			match r {
+				Ok(Some(o)) => {
+					cx.stats.merge(&o.stats);
+					for v in o.viols {
+						cx.push(i as u64, v);
 					}
-					built.push((i, cfgs[i]));
-				}
-			},
-			Ok(None) => cx.capped = true,
-			Err(p) => cx.push(i as u64, Viol {
-				oracle: "no-panic",
-				identity: format!("no-panic|bolt11-harness|{}", p),
-				detail: format!("panic outside guarded region for [{}]: {}", b11::cfg_desc(&cfgs[i]), p),
-				replay: json!({"fam": "b11-rt", "cfg": b11::cfg_json(&cfgs[i])}),
-				rank: 0,
-			}),
+					if let Some(s) = o.ok {
+						cx.nontrivial(s.as_bytes());
+						if cx.samples.len() < 6 && (i % 97 == 0) {
+							cx.samples.push(json!({"family": "bolt11-roundtrip", "config": b11::cfg_desc(&cfgs[i]), "string": s}));
+						}
+						if fam_of[i] <= 3 {
+							built.push((i, cfgs[i]));
+						}
+					}
+				},
+				Ok(None) => cx.capped = true,
+				Err(p) => cx.push(i as u64, Viol {
+					oracle: "no-panic",
+					identity: format!("no-panic|bolt11-harness|{}", p),
+					detail: format!("panic outside guarded region for [{}]: {}", b11::cfg_desc(&cfgs[i]), p),
+					replay: json!({"fam": "b11-rt", "cfg": b11::cfg_json(&cfgs[i])}),
+					rank: 0,
+				}),
+			}
 		}
+		base = end;
 	}
 
 	cx.lap("b11.roundtrip");
@@ -223,8 +215,10 @@ pub fn run(cx: &mut Ctx) {
 	cx.stats.add("b11.charsub.invoices_selected", charsub_sel.len() as u64);
 	cx.stats.add("b11.fixed.invoices_selected", fixed_sel.len() as u64);
 
+	let now = Instant::now();
+	let charsub_deadline = if deadline > now { now + (deadline - now).mul_f64(0.5) } else { now };
 	let res = par::map(&charsub_sel, cx.threads, |_, (_, c)| {
-		if Instant::now() >= deadline {
+		if Instant::now() >= charsub_deadline {
 			return None;
 		}
 		let mut st = Stats::default();
@@ -400,4 +394,62 @@ pub fn replay(fam: &str, r: &Value) -> Result<String, String> {
 		},
 		_ => b11::replay_mutation(r),
 	}
+}
+
+/// Thorough only: a wide cross product of all factors (round trip only), run last.
+pub fn run_wide(cx: &mut Ctx) {
+	let cfgs = product(&[
+				(0, vec![0, 2]),
+				(1, vec![0, 1, 2, 4, 6, 7, 8, 9, 10, 11, 12]),
+				(2, vec![0, 1, 3]),
+				(3, vec![0, 1, 4, 5, 8]),
+				(4, vec![0, 1, 3, 4]),
+				(5, (0..27).collect()),
+				(6, vec![0, 2, 3, 5]),
+				(7, vec![0, 1, 2]),
+				(8, vec![0, 1, 4]),
+				(9, all(9)),
+				(10, all(10)),
+			]);
+	cx.stats.add("b11.family.product-wide.configs", cfgs.len() as u64);
+	let deadline = cx.deadline;
+	const BATCH: usize = 100_000;
+	let mut base = 0usize;
+	while base < cfgs.len() {
+		let end = (base + BATCH).min(cfgs.len());
+		let res = par::map(&cfgs[base..end], cx.threads, |_, c| {
+			if Instant::now() >= deadline {
+				return None;
+			}
+			Some(roundtrip_one(c))
+		});
+		for (k, r) in res.into_iter().enumerate() {
+			let i = base + k;
+			match r {
+				Ok(Some(o)) => {
+					cx.stats.merge(&o.stats);
+					for v in o.viols {
+						cx.push((12u64 << 32) + i as u64, v);
+					}
+					if let Some(s) = o.ok {
+						cx.nontrivial(s.as_bytes());
+						cx.stats.add("b11.family.product-wide.roundtrip_ok", 1);
+					}
+				},
+				Ok(None) => {
+					cx.capped = true;
+					cx.stats.add("b11.family.product-wide.skipped_by_cap", 1);
+				},
+				Err(p) => cx.push(i as u64, Viol {
+					oracle: "no-panic",
+					identity: format!("no-panic|bolt11-harness|{}", p),
+					detail: format!("panic outside guarded region for [{}]: {}", b11::cfg_desc(&cfgs[i]), p),
+					replay: json!({"fam": "b11-rt", "cfg": b11::cfg_json(&cfgs[i])}),
+					rank: 0,
+				}),
+			}
+		}
+		base = end;
+	}
+	cx.lap("b11.product-wide");
 }
